@@ -1,11 +1,23 @@
 /-
-C04 — property theorems (see docs/C04.md).  Work in progress: this first slice states the exact
-acceptance condition of the explicit confirmation steps.
+C04 — root of the property theorems (docs/C04.md lists them): imports every Props file of the area and
+states the exact acceptance condition of the explicit confirmation steps.
 -/
 import Bee2V.C04.Model
+import Bee2V.C04.PropsReject
+import Bee2V.C04.PropsBmqv
+import Bee2V.C04.PropsBsts
+import Bee2V.C04.PropsBpace
+import Bee2V.C04.PropsBauth
+import Bee2V.C04.PropsTamperBmqv
+import Bee2V.C04.PropsTamperBsts
+import Bee2V.C04.PropsTamperBpace
+import Bee2V.C04.PropsTamperBauth
+import Bee2V.C04.PropsDrv
+import Bee2V.C04.PropsBelt
+import Bee2V.C04.Toy
 namespace Bee2V.C04
 open Bee2V.Gen.C04Err
-open Bee2V.C02 (Bytes)
+open Bee2V.C02 (Bytes zeros)
 variable {G : Type}
 
 /-- bakeBMQVStep5 succeeds exactly when B's confirmation is switched on and the received tag is the
@@ -14,5 +26,21 @@ theorem bmqvStep5_ok_iff (E : Env G) (s : BmqvSt) (inp : Bytes) :
     (∃ s', bmqvStep5 E s inp = .ok s') ↔ s.set.kcb ≠ 0 ∧ E.mac s.k1 (ones 16) = inp.take 8 := by
   unfold bmqvStep5
   by_cases h1 : s.set.kcb = 0 <;> by_cases h2 : E.mac s.k1 (ones 16) = inp.take 8 <;> simp [h1, h2]
+
+/-- bakeBPACEStep6 succeeds exactly when A's confirmation is switched on and the received tag is the MAC of 0^128 under K1 -/
+theorem bpaceStep6_ok_iff (E : Env G) (s : BpaceSt G) (inp : Bytes) :
+    (∃ s', bpaceStep6 E s inp = .ok s') ↔ s.set.kca ≠ 0 ∧ E.mac s.k1 (zeros 16) = inp.take 8 := by
+  unfold bpaceStep6
+  by_cases h1 : s.set.kca = 0 <;> by_cases h2 : E.mac s.k1 (zeros 16) = inp.take 8 <;> simp [h1, h2]
+
+/-- the confirmation steps that the flags switch off answer ERR_BAD_LOGIC -/
+theorem confirm_off_badLogic (E : Env G) (sm : BmqvSt) (sp : BpaceSt G) (st : BauthTSt G) (inp : Bytes) :
+    (sm.set.kcb = 0 → bmqvStep5 E sm inp = .error ERR_BAD_LOGIC) ∧
+    (sp.set.kca = 0 → bpaceStep6 E sp inp = .error ERR_BAD_LOGIC) ∧
+    (st.set.kcb = 0 → bauthTStep5 E st inp = .error ERR_BAD_LOGIC) := by
+  refine ⟨fun h => ?_, fun h => ?_, fun h => ?_⟩
+  · simp [bmqvStep5, h]
+  · simp [bpaceStep6, h]
+  · simp [bauthTStep5, h]
 
 end Bee2V.C04
